@@ -172,7 +172,7 @@ func payloads() []payload {
 var sentRe = regexp.MustCompile(`S(\d+)E`)
 
 func runC04(res *Result, tier string, seed int64, replay string) {
-	res.Rule = "(1f) the text of mj-text: seeded valid-UTF-8 texts (every kind of white space incl. Unicode spaces that are NOT collapsed, no-break spaces, references, inline markup, void tags) through MJTextComponent.buildRawInnerHTML (verif export) vs the Lean Model TextFlow.textInner (driver `textflow`), byte for byte; (1e) inline content written back: seeded inline content (text runs with every kind of reference, CDATA, comments, white space and no-break spaces at the edges; nested inline elements, void elements in both spellings and letter cases, attributes with quotes / angle brackets / ampersands, empty values) inside mj-button / mj-navbar-link / mj-social-element / mj-accordion-title / -text, parsed by the real parser; (*MJMLNode).GetMixedContent compared byte for byte with the Lean Model Mixed.content on the parsed tree (driver `mixed`), and the round-trip theorem executed on every well-formed tree; (1d) EXHAUSTIVE: every content-like attribute the allowed-attribute table accepts with type string (addresses, alternative and tool-tip texts, names, link attributes), on every component in its legal context, with a distinctive value: the value must occur in the output (an accepted attribute that is read nowhere is content lost without an error); (1c) attribute content, EXHAUSTIVE: 16 attribute slots (alt / title / href / src of image, carousel image, button, navbar link, social element) × 13 text values or 6 addresses (percent signs, format directives, placeholders, every spelling of ampersands / quotes / angle brackets, non-ASCII): the output equals the output of a plain reference value with the value put in its place, character references decoded once; (1) content matrix, EXHAUSTIVE: 18 content slots (text, button, table cell, raw, navbar link, social element — horizontal, vertical, without a known network —, accordion title / text — also the first of two —, raw content between the children of navbar / social / accordion / accordion element (where MJML allows mj-raw), title, preview) × 9 placements (column, second column, group, hero, wrapper, middle of three sections, after a chaining section, background-image section, full-width section) × 32 payloads (plain, text interrupted by comments or by author-written CDATA sections, percent signs and format directives (also as the last character), inline / nested markup, every compact arrangement of text runs and inline elements (element first, lone text run behind / between elements, elements only), link with &amp;, escaped markup &lt;b&gt;, numeric and hex character references for '<', &amp;, HTML named entities, quotes, <br/>, non-ASCII letters whose case folding changes their byte length, character data whose decoded value looks like a character reference), unique sentinels in reading order; + size payloads in every slot (one unbroken 70 KB token, 70 KB of white space or line breaks, 300 KB of words, 72 KB of CJK text, a 96 KB data URI inside markup); the Lean oracle on the real bytes says which sentinels standard clients see (in order) and which sit only in Outlook blocks; escaped markup must not come out as markup; a document that loses content must return an error. (2) the layout documents of C02/C03 with a sentinel in every slot. Non-trivial = every cell; distinct by (slot, placement, payload)"
+	res.Rule = "(1f) the text of mj-text: seeded valid-UTF-8 texts (every kind of white space incl. Unicode spaces that are NOT collapsed, no-break spaces, references, inline markup, void tags) through MJTextComponent.buildRawInnerHTML (verif export) vs the Lean Model TextFlow.textInner (driver `textflow`), byte for byte; the void-tag normaliser that follows (normalizeVoidHTMLTags: fragments made of void tags in every spelling, look-alike names, the runes Go folds into k and s, <br> with blanks around) vs TextVoid.normalize (driver `textvoid`); (1e) inline content written back: seeded inline content (text runs with every kind of reference, CDATA, comments, white space and no-break spaces at the edges; nested inline elements, void elements in both spellings and letter cases, attributes with quotes / angle brackets / ampersands, empty values) inside mj-button / mj-navbar-link / mj-social-element / mj-accordion-title / -text, parsed by the real parser; (*MJMLNode).GetMixedContent compared byte for byte with the Lean Model Mixed.content on the parsed tree (driver `mixed`), and the round-trip theorem executed on every well-formed tree; (1d) EXHAUSTIVE: every content-like attribute the allowed-attribute table accepts with type string (addresses, alternative and tool-tip texts, names, link attributes), on every component in its legal context, with a distinctive value: the value must occur in the output (an accepted attribute that is read nowhere is content lost without an error); (1c) attribute content, EXHAUSTIVE: 16 attribute slots (alt / title / href / src of image, carousel image, button, navbar link, social element) × 13 text values or 6 addresses (percent signs, format directives, placeholders, every spelling of ampersands / quotes / angle brackets, non-ASCII): the output equals the output of a plain reference value with the value put in its place, character references decoded once; (1) content matrix, EXHAUSTIVE: 18 content slots (text, button, table cell, raw, navbar link, social element — horizontal, vertical, without a known network —, accordion title / text — also the first of two —, raw content between the children of navbar / social / accordion / accordion element (where MJML allows mj-raw), title, preview) × 9 placements (column, second column, group, hero, wrapper, middle of three sections, after a chaining section, background-image section, full-width section) × 32 payloads (plain, text interrupted by comments or by author-written CDATA sections, percent signs and format directives (also as the last character), inline / nested markup, every compact arrangement of text runs and inline elements (element first, lone text run behind / between elements, elements only), link with &amp;, escaped markup &lt;b&gt;, numeric and hex character references for '<', &amp;, HTML named entities, quotes, <br/>, non-ASCII letters whose case folding changes their byte length, character data whose decoded value looks like a character reference), unique sentinels in reading order; + size payloads in every slot (one unbroken 70 KB token, 70 KB of white space or line breaks, 300 KB of words, 72 KB of CJK text, a 96 KB data URI inside markup); the Lean oracle on the real bytes says which sentinels standard clients see (in order) and which sit only in Outlook blocks; escaped markup must not come out as markup; a document that loses content must return an error. (2) the layout documents of C02/C03 with a sentinel in every slot. Non-trivial = every cell; distinct by (slot, placement, payload)"
 	drv, err := startDriverPool(12)
 	if err != nil {
 		res.Disagree(Violation{Sig: "driver-missing", What: err.Error()})
@@ -370,6 +370,7 @@ func runC04(res *Result, tier string, seed int64, replay string) {
 		runC04Attrs(res, drv)
 		runC04Mixed(res, drv, tier, seed)
 		runC04TextFlow(res, drv, tier, seed)
+		runC04TextVoid(res, drv, tier, seed)
 		runC04StringAttrs(res)
 	}
 	// (2) layout documents
